@@ -78,6 +78,19 @@ def c12(tier):
             ck.violation("OplLex.tla (%s alphabet): %s" % (alpha, r.violation), {"tlc": r.raw_tail[-3000:]})
         lex += r.lines
     texts = near_misses(rnd, 200 if tier == "quick" else 3000)
+    # whole typed documents (OplTypes.tla): the deferred type checks are part of Parse - every type of the traversed relation, subject-set
+    # type cycles inside one namespace and across namespaces, every mutation; one document per class (thorough: 2000 more)
+    cfg = write_cfg(["AsIsThroughSubjectSet = TRUE"])
+    tp = tlc("OplTypes", "t1.cfg", files={"t1.cfg": cfg})
+    ck.add_tlc(tp)
+    bykey = {}
+    for l in tp.lines:
+        bykey.setdefault((l["prog"]["pt"], l["prog"]["gm"], l["prog"]["body"], l["prog"]["mut"]), []).append(l["src"])
+    typed = [rnd.choice(sorted(set(v))) for k, v in sorted(bykey.items())]
+    if tier != "quick":
+        typed += rnd.sample(sorted({l["src"] for l in tp.lines}), 2000)
+    texts += typed
+    ck.extra["typed_documents"] = len(typed)
     raws = []
     for _ in range(300 if tier == "quick" else 5000):
         n = rnd.choice([1, 2, 3, 5, 8, 20, 60, 200])
@@ -162,6 +175,12 @@ def c10(tier):
     r = tlc("OplGrammar", "g.cfg", files={"g.cfg": cfg}, extra=["-seed", str(seed())])
     ck.add_tlc(r)
     progs = r.lines
+    # flat operator chains of four and five operands in every &&/|| pattern (what precedence and associativity are about)
+    cfg = write_cfg(["Depth = 0", "NSample = 0", "NVariants = %d" % (2 if tier == "quick" else 6)])
+    rc = tlc("OplGrammar", "gc.cfg", files={"gc.cfg": cfg}, extra=["-seed", str(seed() + 2)])
+    ck.add_tlc(rc)
+    progs = progs + rc.lines
+    ck.extra["operator_chain_programs"] = len(rc.lines)
     if tier == "thorough":
         # deeper nesting around the documented limit (10): chains of ! and of parentheses are printed by the same module at depth 3 in a sample
         cfg = write_cfg(["Depth = 3", "NSample = 20000", "NVariants = 1"])
